@@ -1,0 +1,13 @@
+//go:build verif
+
+package traversal
+
+// VerifPoint, when set, is called at named points of the lookup's run loop. Verification builds only:
+// it lets a test hold the run loop at a point that the scheduler would otherwise hit only by chance.
+var VerifPoint func(name string)
+
+func verifPoint(name string) {
+	if f := VerifPoint; f != nil {
+		f(name)
+	}
+}
